@@ -2231,6 +2231,11 @@ func repoTagHandler(c web.C, w http.ResponseWriter, r *http.Request) {
 		}
 	}
 
+	if jsonData.Tag == "" {
+		BadRequest(w, r, "tag requires a non-empty 'tag' string, which becomes the UUID of the tagged version")
+		return
+	}
+
 	// create new branch
 	branch := "tag-" + jsonData.Tag
 	note := fmt.Sprintf("Tag of version %s with %q", uuid, jsonData.Tag)
@@ -2239,11 +2244,13 @@ func repoTagHandler(c web.C, w http.ResponseWriter, r *http.Request) {
 	// create new branch (will just version node if branch name is the same as the parent)
 	newuuid, err := datastore.NewVersion(uuid, jsonData.Note, branch, &uuidTag)
 	if err != nil {
+		// nothing was created, so there is nothing to log or commit: in particular
+		// don't commit whatever existing node the tag string happens to name.
 		BadRequest(w, r, err)
-	} else {
-		w.Header().Set("Content-Type", "application/json")
-		fmt.Fprintf(w, "{%q: %q}", "child", newuuid)
+		return
 	}
+	w.Header().Set("Content-Type", "application/json")
+	fmt.Fprintf(w, "{%q: %q}", "child", newuuid)
 
 	// send tag op to kafka
 	msginfo := map[string]interface{}{
